@@ -12,6 +12,7 @@
   (`no_oob`) and yields `evs`.
 -/
 import LyonVerif.Lemmas.PathViews
+import LyonVerif.Lemmas.PathMore
 
 set_option linter.unusedSectionVars false
 set_option linter.unusedVariables false
@@ -72,5 +73,122 @@ theorem id_iter_resolves (n : Nat) (prog : Prog S) (hv : ValidProg n prog) :
       = some (specEvents prog) := by
   have h := resolveAll_fst _ _ _ (id_iter_resolves_attributes n prog hv)
   simpa [specEvents, specFrom_aCall_fst] using h
+
+/-! ### the plain builder (`Path::builder()`) -/
+
+theorem plain_builder_storage {A : Type} (prog : List (Call (Pt S) A)) :
+    buildPlain prog = stored 0 (prog.map noAttr) := by
+  simp [buildPlain, plain_run_emit, BuilderImpl.build, BuilderImpl.new, stored]
+
+theorem validProg_noAttr {A : Type} (prog : List (Call (Pt S) A)) (h : WellNested prog) :
+    ValidProg 0 (prog.map (noAttr (S := S))) :=
+  ⟨by simpa [WellNested, wellNestedFrom_noAttr] using h, attrsOk_noAttr prog⟩
+
+/-- `Path::builder()` (attributes ignored): `iter` yields the specification events. -/
+theorem iter_eq_spec_plain {A : Type} (prog : List (Call (Pt S) A)) (h : WellNested prog) :
+    (buildPlain prog).iter = some (specEvents prog) := by
+  rw [plain_builder_storage, iter_eq_spec 0 _ (validProg_noAttr prog h)]
+  simp [specEvents, specFrom_noAttr]
+
+/-- `Path::builder()`: `id_iter` resolved through the path is `iter`. -/
+theorem id_iter_resolves_plain {A : Type} (prog : List (Call (Pt S) A)) (h : WellNested prog) :
+    resolveAll (buildPlain prog).point (buildPlain prog).point (buildPlain prog).idIter
+      = some (specEvents prog) := by
+  rw [plain_builder_storage, id_iter_resolves 0 _ (validProg_noAttr prog h)]
+  simp [specEvents, specFrom_noAttr]
+
+/-! ### concatenation -/
+
+theorem validProg_append (n : Nat) (p q : Prog S) (hp : ValidProg n p) (hq : ValidProg n q) :
+    ValidProg n (p ++ q) :=
+  ⟨wellNestedFrom_append false p q hp.1 hq.1, by simp [attrsOk_append, hp.2, hq.2]⟩
+
+theorem stored_append (n : Nat) (p q : Prog S) (hq : ValidProg n q) :
+    (stored n (p ++ q)).points = (stored n p).points ++ (stored n q).points ∧
+    (stored n (p ++ q)).verbs = (stored n p).verbs ++ (stored n q).verbs := by
+  refine ⟨?_, by simp [stored, emitVerbs_append]⟩
+  simp only [stored, emitPts_append]
+  rw [emitPts_indep q hq.1 _ zeroPt _ (List.replicate n default)]
+
+/-- `extend_from_paths`: appending the storage of paths built from programs `qs` to a builder
+that has run `p` gives exactly the storage of the concatenated program — so every view theorem
+applies to it. -/
+theorem concat_is_append (n : Nat) (p : Prog S) (qs : List (Prog S))
+    (hqs : ∀ q ∈ qs, ValidProg n q) :
+    concatenatePaths (stored n p).points (stored n p).verbs (qs.map (stored n)) n
+      = some ((stored n (p ++ qs.flatten)).points, (stored n (p ++ qs.flatten)).verbs) := by
+  have hall : (qs.map (stored n)).all (fun P => P.numAttributes == n) = true := by
+    simp [stored]
+  simp only [concatenatePaths, hall, if_true, Option.some.injEq]
+  clear hall
+  induction qs generalizing p with
+  | nil => simp
+  | cons q r ih =>
+    have hq := hqs q (by simp)
+    obtain ⟨h1, h2⟩ := stored_append n p q hq
+    simp only [List.map_cons, List.foldl_cons, ← h1, ← h2]
+    rw [ih (p ++ q) (fun q' hq' => hqs q' (by simp [hq']))]
+    simp [List.append_assoc]
+
+theorem specFrom_append (st : Option (Pt S × Pt S)) (p q : Prog S)
+    (hp : wellNestedFrom st.isSome p = true) :
+    specFrom st (p ++ q) = specFrom st p ++ specFrom none q := by
+  induction p generalizing st with
+  | nil => cases st <;> simp_all [wellNestedFrom, specFrom]
+  | cons c r ih =>
+    cases st with
+    | none => cases c <;> simp_all [wellNestedFrom, specFrom]
+    | some fc => obtain ⟨f, c0⟩ := fc; cases c <;> simp_all [wellNestedFrom, specFrom]
+
+/-- … in particular the concatenation iterates as the concatenation of the parts. -/
+theorem concat_iter (n : Nat) (p q : Prog S) (hp : ValidProg n p) (hq : ValidProg n q) :
+    (stored n (p ++ q)).iter = some (specEvents p ++ specEvents q) := by
+  rw [iter_eq_spec n _ (validProg_append n p q hp hq)]
+  simp [specEvents, specFrom_append none p q hp.1]
+
+
+/-! ### path buffers -/
+
+/-- `PathBuffer`: a path appended with the plain builder reads back, through `get`, as exactly
+the storage `Path::builder()` would have produced on its own (whatever the buffer already
+holds); `adjust_id` never underflows; the ids are relative to the entry. -/
+theorem path_buffer_get_partial {A : Type} (b : PathBuffer S) (prog : List (Call (Pt S) A)) :
+    ∃ b' ids, b.addPlain prog = some (b', ids, b.paths.length) ∧
+      b'.get b.paths.length = some (buildPlain prog) := by
+  have hge := run_ids_ge (S := S) ⟨b.points, b.verbs, zeroPt⟩ prog b.points.length (by simp)
+  refine ⟨_, _, by simp only [PathBuffer.addPlain, adjustIds_total _ _ hge, Option.map_some]; rfl, ?_⟩
+  have h1 := sliceRange_mid b.points (emitPts (S := S) zeroPt [] (prog.map noAttr)) []
+  have h2 := sliceRange_mid b.verbs (emitVerbs (S := S) (prog.map noAttr)) []
+  simp only [List.append_nil] at h1 h2
+  simp [PathBuffer.get, plain_run_emit, h1, h2, plain_builder_storage, stored]
+
+/-- The same for an entry written with attributes, mirroring the code as it is: the storage is
+the right one, but the descriptor says `num_attributes = 0`. -/
+theorem path_buffer_get_attributes_storage (b : PathBuffer S) (n : Nat) (prog : Prog S)
+    (hv : ValidProg n prog) (b' : PathBuffer S) (ids : List Nat) (idx : Nat)
+    (h : b.addWithAttributes n prog = some (b', ids, idx)) :
+    idx = b.paths.length ∧
+    b'.get idx = some { stored n prog with numAttributes := 0 } := by
+  have hr := run_emit (S := S) ⟨⟨b.points, b.verbs, zeroPt⟩, n, List.replicate n default⟩ prog hv.2
+    (by simp)
+  simp only [PathBuffer.addWithAttributes] at h
+  cases hrun : BuilderWithAttributes.run (S := S)
+      ⟨⟨b.points, b.verbs, zeroPt⟩, n, List.replicate n default⟩ prog with
+  | none => simp [hrun] at h
+  | some r =>
+    simp only [hrun, Option.map_some, Option.some.injEq] at hr
+    simp only [hrun, Option.bind_some] at h
+    cases hadj : adjustIds b.points.length r.2 with
+    | none => simp [hadj] at h
+    | some ids' =>
+      simp only [hadj, Option.map_some, Option.some.injEq, Prod.mk.injEq] at h
+      obtain ⟨hb, hids, hidx⟩ := h
+      refine ⟨hidx.symm, ?_⟩
+      have h1 := sliceRange_mid b.points (emitPts (S := S) zeroPt (List.replicate n default) prog) []
+      have h2 := sliceRange_mid b.verbs (emitVerbs (S := S) prog) []
+      simp only [List.append_nil] at h1 h2
+      subst hb
+      simp [PathBuffer.get, hr, ← hidx, h1, h2, stored]
+
 
 end Lyon.C14
